@@ -365,7 +365,11 @@ def apply(op, w, stats, rngless=None):
         sh = tuple(op[2])
         if sh[0] * sh[1] != M.m * M.n:
             return
-        X.size = sh
+        try:
+            X.size = sh
+        except TypeError:
+            bump('resize_refused')       # refusing to resize an exported matrix would be legitimate for C20
+            return
         M.m, M.n = sh
         return
     if kind == 'iop':
